@@ -6,13 +6,18 @@ C02 driver.  One line = the whole history of ONE message id as a sequence of mod
   C02 run <maxTries> <hp> <tok>…           from the fresh id
   C02 syn <maxTries> <hp> <H> <B> <M> <N> <X> <tok>…   from a hand-made directory state, process down
 
-tokens:  A<n>,<hl>,<bl>  accept (recipients 1..n, header/body of hl/bl bytes)    +<k>  issue k file operations
+tokens:  A<n>,<hl>,<bl>[,<env>]  accept (recipients 1..n, header/body of hl/bl bytes; env = spelling of the
+           envelope: p plain (default) | i IDN + SMTPUTF8 | q quoted local parts | m mixed recipient spellings |
+           n null reverse-path | z null reverse-path + mixed recipients — the model only reads "null or not")
+         +<k>  issue k file operations
          C commit   B abort   D dispatch   O<letters o|t|p|u per recipient of the attempt>   P panic
          X<keep>  crash     T<n>;<keep>  crash in the middle of the next write after n bytes      R restart
          keep = a (nothing lost) | d (all un-synced data lost) | <h>,<b>,<m>,<n> kept pending bytes per file (a = all)
 `hp` = does `textproto.ReadHeader` accept the header bytes found after the crash (computed by the real code).
 
-answer: the labels of the last segment (from the last `R`, or everything when there is none), `|`, the files.
+answer: the labels of the last segment (from the last `R`, or everything when there is none), `|`, the files
+(and `SLOT-NEVER-FIRED` when the model still has a slot in the time wheel at the end of the line: the harness
+runs the real queue to quiescence, so that never matches).
 -/
 namespace Driver.C02
 open MaddyVerif.SpoolFS MaddyVerif.Queue Driver
@@ -60,13 +65,21 @@ def parseKeep (s : String) : Option (FKind → Nat) :=
         | .header => h | .body => b | .metaF => m | .metaNew => n | .broken => 1000000000)
     | _ => none
 
+/-- The envelope-spelling field: is the reverse-path the null one? -/
+def envNull : List String → Option Bool
+  | [] => some false
+  | [e] => if e == "p" || e == "i" || e == "q" || e == "m" then some false
+           else if e == "n" || e == "z" then some true else none
+  | _ => none
+
 /-- Parse one token into the choices it stands for (needs the state for `O`). -/
 def parseTok (s : St) (t : String) : Option (List Choice) :=
   match t.toList with
   | 'A' :: rest =>
-    match ((String.ofList rest).splitOn ",").mapM String.toNat? with
-    | some [n, hl, bl] => some [.accept ((List.range n).map (· + 1)) (List.range hl) (List.range bl)]
-    | _ => none
+    let fs := (String.ofList rest).splitOn ","
+    match (fs.take 3).mapM String.toNat?, envNull (fs.drop 3) with
+    | some [n, hl, bl], some nf => some [.accept ((List.range n).map (· + 1)) (List.range hl) (List.range bl) nf]
+    | _, _ => none
   | '+' :: rest => (String.ofList rest).toNat?.map (fun k => List.replicate k Choice.op)
   | ['C'] => some [.commit]
   | ['B'] => some [.abort]
@@ -101,7 +114,7 @@ def labels (P : Params) (s : St) (c : Choice) (s' : St) : List String :=
     match s.pc with
     | .attempting m =>
       let d := delivered m e
-      let f := (attemptResult P m e).failedR
+      let f := reportedNow m (attemptResult P m e)
       (if d.isEmpty then [] else ["DLV:" ++ natList d]) ++ (if f.isEmpty then [] else ["RPT:" ++ natList f])
     | _ => []
   | .panic => ["PANIC"]
@@ -117,7 +130,8 @@ def showMeta (c : Codec) : Option File → String
   | some f =>
     match c.parse f.content with
     | none => "M?"
-    | some m => "M" ++ natList m.to ++ ";" ++ natList (m.to.map m.triesFn) ++ (if f.pending.isEmpty then "/f" else "/p")
+    | some m => "M" ++ natList m.to ++ ";" ++ natList (m.to.map m.triesFn) ++ (if m.nullFrom then ";n" else "") ++
+        (if f.pending.isEmpty then "/f" else "/p")
 
 def showPresent (tag : String) : Option File → String
   | none => tag ++ "-"
@@ -182,12 +196,12 @@ def parseMetaSpec (c : Codec) (t : String) : Option (Option File) :=
     if r == "-" then some none
     else if r == "g" then some (some ⟨[], []⟩)
     else match r.splitOn ";" with
-      | [to, tr] =>
-        match parseNatList to, parseNatList tr with
-        | some to, some tr =>
+      | to :: tr :: env =>
+        match parseNatList to, parseNatList tr, envNull env with
+        | some to, some tr, some nf =>
           if to.length != tr.length then none
-          else some (some ⟨c.ser ⟨to, (to.zip tr).filter (fun p => p.2 != 0)⟩, []⟩)
-        | _, _ => none
+          else some (some ⟨c.ser ⟨to, (to.zip tr).filter (fun p => p.2 != 0), nf⟩, []⟩)
+        | _, _, _ => none
       | _ => none
   | _ => none
 
@@ -203,7 +217,7 @@ def mkParams (maxTries : Nat) (hl : Option Nat) (hp : Bool) : Params :=
 
 def acceptHdrLen (toks : List String) : Option Nat :=
   match toks.find? (fun t => t.startsWith "A") with
-  | some t => match ((t.drop 1).toString.splitOn ",").mapM String.toNat? with
+  | some t => match (((t.drop 1).toString.splitOn ",").take 3).mapM String.toNat? with
     | some [_, hl, _] => some hl
     | _ => none
   | none => none
@@ -211,7 +225,13 @@ def acceptHdrLen (toks : List String) : Option Nat :=
 def finish (P : Params) (r : Except String (St × List String)) : String :=
   match r with
   | .error e => e
-  | .ok (s, acc) => " ".intercalate acc ++ " | " ++ showDisk P.codec s.disk
+  | .ok (s, acc) =>
+    -- every line ends with a run that went on until nothing was left to do: a slot still waiting in
+    -- the time wheel means the real queue did not attempt something the model schedules
+    let pending := match s.pc with
+      | .sched _ => " SLOT-NEVER-FIRED"
+      | _ => ""
+    " ".intercalate acc ++ " | " ++ showDisk P.codec s.disk ++ pending
 
 def handle : List String → String
   | "run" :: mt :: hp :: toks =>
